@@ -14,13 +14,18 @@ AcceptKeys(ord) == {Key(ord[i]) : i \in {j \in 1..Len(ord) : ord[j].beh = "accep
 FirstAccept(ord) == CHOOSE i \in 1..Len(ord) : ord[i].beh = "accept" /\ \A j \in 1..(i - 1) : ord[j].beh # "accept"
 BhBefore(ord, i) == Cardinality({j \in 1..(i - 1) : ord[j].beh = "blackhole"})
 
-G17_succeedsIffSomeAccepts(e, ord) == (e.res = "ok") <=> (AcceptKeys(ord) # {})
+\* an overall deadline T (ms) shorter than one race interval: only attempts started at once can still succeed, i.e. an
+\* accepting address with nothing but refusing addresses before it
+EarlyAccept(ord) == \E i \in 1..Len(ord) : ord[i].beh = "accept" /\ \A j \in 1..(i - 1) : ord[j].beh = "refuse"
+G17_succeedsIffSomeAccepts(e, ord) ==
+  IF e.T = 0 THEN (e.res = "ok") <=> (AcceptKeys(ord) # {})
+  ELSE (e.res = "ok") <=> EarlyAccept(ord)
 G17_winnerAccepted(e, ord) == e.res = "ok" => <<e.winner[1], e.winner[2]>> \in AcceptKeys(ord)
 G17_attemptOrder(e, ord) == IsPrefix([i \in 1..Len(e.spawns) |-> <<e.spawns[i][1], e.spawns[i][2]>>], Keys(ord))
 G17_unresponsiveCostsOneInterval(e, ord) ==
   e.res = "ok" => e.elapsed <= RaceMs * BhBefore(ord, FirstAccept(ord)) + SlackMs
 G17_honestFailure(e, ord) ==
-  e.res # "ok" => (e.res = "err" /\ (ord # <<>> => e.kind \in {"Io:ConnectionRefused", "Io:TimedOut"}))
+  e.res # "ok" => (e.res = "err" /\ ((ord # <<>> /\ e.T = 0) => e.kind \in {"Io:ConnectionRefused", "Io:TimedOut"}))
 HGuards == {"G17_succeedsIffSomeAccepts", "G17_winnerAccepted", "G17_attemptOrder", "G17_unresponsiveCostsOneInterval", "G17_honestFailure"}
 HGuard(g, e, ord) ==
   CASE g = "G17_succeedsIffSomeAccepts" -> G17_succeedsIffSomeAccepts(e, ord) [] g = "G17_winnerAccepted" -> G17_winnerAccepted(e, ord)
